@@ -88,6 +88,20 @@ def run(ctx, b, broken):
             io = impl_parse(text)
             if not (io.startswith("OK") or io == "R"):
                 su.violation(text, f"a program gcc -std={std} -pedantic-errors accepts was rejected: {io[:160]!r}")
+    # large translation units (about 90 000 tokens) full of constructs that make the parser look ahead and back up
+    # (parenthesised declarators, casts, sizeof of a type name, compound literals), shifted by every small token offset
+    unit = lambda i: (f"int ( * fp{i} ) ( int , char * ) ; int v{i} = ( int ) ( v0 ) + sizeof ( int * ) ; "
+                      f"struct S{i} {{ int a , ( * b ) [ 2 ] ; }} ; void g{i} ( void ) {{ int * p = ( int [ 2 ] ) {{ 1 , 2 }} ; ( void ) p ; }} ")
+    body = "int v0 ; " + "".join(unit(i) for i in range(1, 1500))
+    shifts = ["", "int s ; ", "int * s ; ", "int s , t ; ", "int s [ 1 ] ; ", "int s ; int * t ; ", "int * s ; int * t ; ", "int s ; int t ; int u ; "]
+    for sh in (shifts[:4] if ctx.tier == "quick" else shifts):
+        text = sh + body
+        ctx.evaluations += 1
+        ctx.count("suite:large-unit")
+        ctx.nontriv(("large", sh))
+        io = impl_parse(text, count=False)
+        if not (io.startswith("OK") or io == "R"):
+            su.violation(text[:400] + f" ... ({len(text.split())} tokens)", f"a valid large translation unit ({len(text.split())} tokens, prefix {sh!r}) was rejected: {io[:160]!r}")
     texts = corpus.corpus_texts() + (corpus.big_corpus_texts() if ctx.tier == "thorough" else [])
     for name, text in texts:
         ctx.evaluations += 1
